@@ -1105,6 +1105,9 @@ class Interp(object):
             for x in ts:
                 if x in (BEXC['Exception'], BEXC['BaseException']):
                     return True
+            if excval.f.get('_not_source_defined') and all(isinstance(x, Cls) for x in ts):
+                # raised by a contract that lists yabgp's own exception classes as separate alternatives
+                return False
             return self.branch(z3.Bool(fresh_name('opq_exc_match')))
         for x in ts:
             if isinstance(x, Opaque):
